@@ -85,7 +85,12 @@ func entry(v avfs.VFS, fi fs.FileInfo, p string) string {
 func wellFormed(v avfs.VFS, sig string) []node {
 	var ns []node
 	budget := 60
-	ok := walk(v, "/", &ns, &budget)
+	root := "/"
+	if _, err := v.Lstat("/"); err != nil {
+		// OrefaFS cannot address its root directory (known finding, C14): walk the scratch tree
+		root = "/w"
+	}
+	ok := walk(v, root, &ns, &budget)
 	sym.Assert(ok, sig+"|walk-does-not-terminate")
 	if !ok {
 		return ns
@@ -269,6 +274,20 @@ func step(v avfs.VFS, kind int, c call) {
 	}
 	if err != nil {
 		return
+	}
+	// a successful creating call leaves the new name in place (a renamed directory
+	// must not be detached from the tree)
+	switch c.op {
+	case "Mkdir", "MkdirAll", "Create", "WriteFile":
+		_, lerr := v.Lstat(c.p)
+		sym.Assert(lerr == nil, sig+"|created-name-does-not-exist")
+	case "Rename", "Link", "Symlink":
+		_, lerr := v.Lstat(c.q)
+		sym.Assert(lerr == nil, sig+"|new-name-does-not-exist")
+		if c.op == "Rename" && c.p != c.q && !(pfi != nil && qfi != nil && v.SameFile(pfi, qfi) && pfi.Mode().IsRegular()) {
+			_, oerr := v.Lstat(c.p)
+			sym.Assert(oerr != nil, sig+"|old-name-still-exists")
+		}
 	}
 	// I5: entries not named by the call (nor below a named entry, nor another
 	// name of a named file) are unchanged
